@@ -968,7 +968,30 @@ def eval_own_ctor(name, variant, rounds, keylen):
     return out
 
 
+def eval_get_prf(name, sep, key, msg):
+    """the legacy HMAC entry point passlib.utils.pbkdf2.get_prf('hmac-<digest>') -> (function(key, msg), digest size)"""
+    import warnings
+
+    want = hmac_expected(name, key, msg)
+    try:
+        with warnings.catch_warnings():
+            warnings.simplefilter("ignore")
+            from passlib.utils.pbkdf2 import get_prf
+
+            f, size = get_prf(f"hmac{sep}{name}")
+            got = f(key, msg)
+    except Exception as e:  # noqa: BLE001
+        return [(f"C11|hmac|get_prf:raises:{_exc(e)}", f"get_prf('hmac{sep}{name}') / its function raised {e!r}")]
+    out = []
+    if got != want:
+        out.append((f"C11|hmac|get_prf:{name}:value", f"get_prf('hmac{sep}{name}')[0]({key!r}, {msg!r}) = {got.hex()}, RFC 2104 reference {want.hex()}"))
+    if size != len(want):
+        out.append((f"C11|hmac|get_prf:{name}:size", f"get_prf('hmac{sep}{name}')[1] = {size}, digest size {len(want)}"))
+    return out
+
+
 EVALS = {
+    "get_prf": lambda c: eval_get_prf(c["digest"], c["sep"], c["key"], c["msg"]),
     "own_ctor": lambda c: eval_own_ctor(c["digest"], c["variant"], c["rounds"], c["keylen"]),
     "hmac_after_ctor": lambda c: eval_hmac_after_ctor(c["digest"], c["variant"], c["order"]),
     "des_int": lambda c: eval_des_int(c["part"], c["key"], c["block"], c["salt"], c["rounds"]),
@@ -1387,6 +1410,10 @@ def w_hmac(acc, task, seed):
     for variant in ("truncated", "personalised", "hashlib_new"):
         for order in ("ctor_first", "name_first"):
             _do(acc, {"kind": "hmac_after_ctor", "digest": name, "variant": variant, "order": order}, ("hmac", name, "after_ctor", variant, order))
+    for sep in ("-", "_"):
+        for klen in (0, block, block + 1):
+            _do(acc, {"kind": "get_prf", "digest": name, "sep": sep, "key": filler(seed, klen, b"prf-key"), "msg": filler(seed, 33, b"prf-msg")},
+                ("hmac", name, "get_prf", sep, klen))
     for variant in ("truncated", "personalised", "hashlib_new"):
         for rounds in (1, 3):
             for keylen in (None, 8, hlen + 1):
